@@ -112,31 +112,12 @@ impl CharacterMutator {
 //@item src/mutators/typeconfusion.rs struct TypeConfusionMutator
 //@item src/mutators/mod.rs struct EmissionSnapshot
 
-/// kind class of a value-pushing opcode byte per the statement of C16 (0 = not value pushing);
-/// hand-written from the opcode table, not from typeconfusion.rs
-pub open spec fn class_of(b: u8) -> int {
-    if b == 0x49 || b == 0x4a || b == 0x4b || b == 0x4d || b == 0x4c || b == 0x8a || b == 0x8b { 1 }
-    else if b == 0x46 || b == 0x47 { 2 }
-    else if b == 0x53 || b == 0x56 || b == 0x8c || b == 0x58 || b == 0x8d { 3 }
-    else if b == 0x42 || b == 0x43 || b == 0x8e || b == 0x54 || b == 0x55 { 4 }
-    else if b == 0x5d || b == 0x6c { 5 }
-    else if b == 0x29 || b == 0x74 || b == 0x85 || b == 0x86 || b == 0x87 { 6 }
-    else if b == 0x7d || b == 0x64 { 7 }
-    else if b == 0x4e { 8 }
-    else if b == 0x88 || b == 0x89 { 9 }
-    else { 0 }
-}
 pub open spec fn class_num(t: StackType) -> int {
     match t {
         StackType::Int => 1, StackType::Float => 2, StackType::String => 3, StackType::Bytes => 4, StackType::List => 5,
         StackType::Tuple => 6, StackType::Dict => 7, StackType::None => 8, StackType::Bool => 9,
     }
 }
-/// one complete value-pushing opcode of class k (classes never contain EXT / buffer / FRAME opcodes)
-pub open spec fn replacement_ok(rep: Seq<u8>, k: int) -> bool {
-    k != 0 && rep.len() >= 1 && class_of(rep[0]) == k && enc_ok(ref_op_of_byte(rep[0]), rep)
-}
-
 impl OpcodeKind {
 //@fn src/opcodes.rs OpcodeKind::as_u8
 //@ret r
